@@ -572,6 +572,25 @@ class Paths(Sym):
         ts = set(targets)
         return bool(ts & self._reach(starts, ts | set(stop), assume))
 
+    def runs_through(self, loop, assume=None) -> bool:
+        """No normal path of the loop body leaves the loop (break / return) before the items are exhausted: every path from the
+        start of the body comes back to the loop head or raises."""
+        head, nxt, body = self.loop_nodes(loop)
+        inside = {id(x) for x in ast.walk(loop)}
+        seen, dq = set(), deque(body)
+        while dq:
+            n = dq.popleft()
+            if n in seen or n is nxt:
+                continue
+            seen.add(n)
+            if n is self.g.exit or (n.stmt is not None and id(n.stmt) not in inside and n is not self.g.rexit):
+                return False
+            for m, lab in n.succ:
+                if lab in ("exc", "raise") or simplify(self.edge(n, lab), assume) is False:
+                    continue
+                dq.append(m)
+        return True
+
     def necessary(self, starts, targets, assume=None) -> frozenset:
         """Conjuncts implied by every path from `starts` to one of `targets` (edges that cannot be avoided)."""
         ts = set(targets)
@@ -673,3 +692,195 @@ def record_fields(p, fn):
             return None
         found = fields
     return found
+
+
+# ---------------------------------------------------------------------------------------------- generator helpers
+def _gen_callee(ctx, fn, call):
+    """FuncInfo of the generator function a call runs (self._g(..) / cls._g(..) / module-level g(..)), when it can be resolved
+    statically (not overridden in a subclass), else None."""
+    f = call.func
+    target = None
+    if isinstance(f, ast.Attribute) and isinstance(f.value, ast.Name) and f.value.id in ("self", "cls") and fn.cls is not None:
+        m = fn.cls.lookup(f.attr)
+        if m and m[1] == "method":
+            target = m[2]
+            if any(sub.own(f.attr) is not None for sub in ctx.p.subclasses(fn.cls, strict=True)):
+                return None
+    elif isinstance(f, ast.Name):
+        r = ctx.p.resolve_name(fn.module, f.id)
+        if r and r[0] == "func":
+            target = r[1]
+    if target is None or target.node is fn.node:
+        return None
+    own = [x for st in target.node.body for x in _walk_own(st)]
+    if not any(isinstance(x, ast.Yield) for x in own) or any(isinstance(x, ast.YieldFrom) for x in own):
+        return None
+    a = target.node.args
+    if a.vararg or a.kwarg or any(isinstance(x, ast.Starred) for x in call.args) or any(k.arg is None for k in call.keywords):
+        return None
+    return target
+
+
+def _walk_own(node):
+    """ast.walk without descending into nested function / class definitions and lambdas."""
+    yield node
+    for ch in ast.iter_child_nodes(node):
+        if isinstance(ch, (ast.FunctionDef, ast.AsyncFunctionDef, ast.ClassDef, ast.Lambda)):
+            continue
+        yield from _walk_own(ch)
+
+
+def _own_level(stmts, kinds):
+    """Statements of the given kinds that belong to this loop level (not to a loop nested in it)."""
+    out = []
+    for st in stmts:
+        if isinstance(st, kinds):
+            out.append(st)
+        if isinstance(st, (ast.For, ast.While, ast.AsyncFor, ast.FunctionDef, ast.ClassDef)):
+            continue
+        for fld in ("body", "orelse", "finalbody"):
+            out += _own_level(getattr(st, fld, None) or [], kinds)
+        for h in getattr(st, "handlers", None) or []:
+            out += _own_level(h.body, kinds)
+    return out
+
+
+def _yield_is_tail(stmts) -> bool:
+    """every `yield` statement of this level is the last thing its path does in the block."""
+    for i, st in enumerate(stmts):
+        last = i == len(stmts) - 1
+        if isinstance(st, ast.Expr) and isinstance(st.value, ast.Yield):
+            if not last:
+                return False
+        elif isinstance(st, ast.If):
+            if any(isinstance(x, ast.Yield) for b in st.body + st.orelse for x in _walk_own(b)) and not (last and _yield_is_tail(st.body) and _yield_is_tail(st.orelse)):
+                return False
+        elif any(isinstance(x, ast.Yield) for x in _walk_own(st)):
+            return False
+    return True
+
+
+def expand_generators(ctx, fn):
+    """`for x in self._gen(args): body`, `_gen` a generator of the shape `<simple statements>; for ... : ... yield e ...`, is the
+    generator's loop with every `yield e` replaced by `x = e; body` and every `return` by `break` (leaving the generator ends the
+    caller's loop).  Returns a FuncInfo-like view (same fields, new body); `fn` itself when there is nothing to expand or a
+    shape is not covered (then the loop is left as it is)."""
+    from dataclasses import replace as _replace
+
+    node = copy.deepcopy(fn.node)
+    taken = {x.id for x in ast.walk(node) if isinstance(x, ast.Name)} | {a.arg for a in node.args.posonlyargs + node.args.args + node.args.kwonlyargs}
+    counter = [0]
+    changed = [False]
+
+    def expand(loop):
+        call = loop.iter
+        if not isinstance(call, ast.Call) or loop.orelse or not isinstance(loop.target, ast.Name):
+            return None
+        callee = _gen_callee(ctx, fn, call)
+        if callee is None:
+            return None
+        gv = ctx.view(callee)
+        body = [copy.deepcopy(st) for st in gv.node.body if not (isinstance(st, ast.Expr) and isinstance(st.value, ast.Constant))]
+        if not body or not isinstance(body[-1], ast.For) or body[-1].orelse:
+            return None
+        gloop, prelude = body[-1], body[:-1]
+        if any(isinstance(x, (ast.Yield, ast.Return, ast.For, ast.While, ast.Try, ast.With)) for st in prelude for x in _walk_own(st)):
+            return None
+        inner = gloop.body
+        yields = [x for st in inner for x in _walk_own(st) if isinstance(x, ast.Yield)]
+        level_yields = [st for st in _own_level(inner, (ast.Expr,)) if isinstance(st.value, ast.Yield)]
+        if len(yields) != len(level_yields) or any(y.value is None for y in yields):
+            return None  # a yield inside a nested loop / expression
+        if any(isinstance(x, (ast.Try, ast.With)) and any(isinstance(y, (ast.Yield, ast.Return)) for y in _walk_own(x)) for st in inner for x in _walk_own(st)):
+            return None
+        rets = [x for st in inner for x in _walk_own(st) if isinstance(x, ast.Return)]
+        if len(rets) != len(_own_level(inner, (ast.Return,))) or any(r.value is not None for r in rets):
+            return None  # a return inside a nested loop would have to leave two loops
+        if _own_level(loop.body, (ast.Continue,)) and not _yield_is_tail(inner):
+            return None  # `continue` in the caller's body would have to resume after the yield
+        # parameters and locals of the generator, renamed away from the caller's names
+        a = gv.node.args
+        params = [x.arg for x in a.posonlyargs + a.args + a.kwonlyargs]
+        args = list(call.args)
+        if callee.kind in ("method", "classmethod") and isinstance(call.func, ast.Attribute):
+            args = [call.func.value] + args
+        binding = dict(zip(params, args))
+        binding.update({k.arg: k.value for k in call.keywords})
+        for prm in params:
+            if prm not in binding:
+                d = default_of(gv.node, prm)
+                if d is None:
+                    return None
+                binding[prm] = d
+        own = {x.id for st in body for x in ast.walk(st) if isinstance(x, ast.Name) and isinstance(x.ctx, (ast.Store, ast.Del))} | set(params)
+        ren = {}
+        # the local every `yield` hands out IS the caller's loop variable
+        handed = {y.value.id for y in yields if isinstance(y.value, ast.Name)}
+        if len(handed) == 1 and all(isinstance(y.value, ast.Name) for y in yields) and next(iter(handed)) in own - set(params) and loop.target.id not in own - handed:
+            ren[next(iter(handed))] = loop.target.id
+        for nm in own - set(ren):
+            if nm in taken and not (nm in binding and isinstance(binding[nm], ast.Name) and binding[nm].id == nm):
+                counter[0] += 1
+                ren[nm] = f"{nm}__g{counter[0]}"
+                taken.add(ren[nm])
+
+        class Ren(ast.NodeTransformer):
+            def visit_Name(self, n):
+                return ast.copy_location(ast.Name(id=ren[n.id], ctx=n.ctx), n) if n.id in ren else n
+
+        pre = []
+        for prm in params:
+            tgt = ren.get(prm, prm)
+            if isinstance(binding[prm], ast.Name) and binding[prm].id == tgt:
+                continue
+            pre.append(ast.Assign(targets=[ast.Name(id=tgt, ctx=ast.Store())], value=copy.deepcopy(binding[prm]), lineno=loop.lineno))
+        prelude = [Ren().visit(st) for st in prelude]
+        gloop = Ren().visit(gloop)
+
+        class Sub(ast.NodeTransformer):
+            def visit_For(self, n):
+                return n if n is not gloop else self.generic_visit(n)
+
+            visit_While = visit_FunctionDef = visit_Lambda = lambda self, n: n
+
+            def visit_Return(self, n):
+                return ast.copy_location(ast.Break(), n)
+
+            def visit_Expr(self, n):
+                if isinstance(n.value, ast.Yield):
+                    bind = []
+                    if not (isinstance(n.value.value, ast.Name) and n.value.value.id == loop.target.id):
+                        bind = [ast.Assign(targets=[ast.Name(id=loop.target.id, ctx=ast.Store())], value=n.value.value, lineno=n.lineno)]
+                    return bind + [copy.deepcopy(st) for st in loop.body]
+                return n
+
+        gloop.body = [y for st in gloop.body for y in (lambda r: r if isinstance(r, list) else [r])(Sub().visit(st))]
+        out = pre + prelude + [gloop]
+        for st in out:
+            for x in ast.walk(st):
+                if isinstance(x, (ast.stmt, ast.expr)) and not hasattr(x, "lineno"):
+                    ast.copy_location(x, loop)
+        return out
+
+    def block(stmts):
+        out = []
+        for st in stmts:
+            for fld in ("body", "orelse", "finalbody"):
+                b = getattr(st, fld, None)
+                if isinstance(b, list) and b and isinstance(b[0], ast.stmt):
+                    setattr(st, fld, block(b))
+            for h in getattr(st, "handlers", None) or []:
+                h.body = block(h.body)
+            new = expand(st) if isinstance(st, ast.For) else None
+            if new is not None:
+                changed[0] = True
+                out += new
+            else:
+                out.append(st)
+        return out
+
+    node.body = block(node.body)
+    if not changed[0]:
+        return fn
+    ast.fix_missing_locations(node)
+    return _replace(fn, node=node)
